@@ -249,10 +249,11 @@ class BuildAssembly(Assembly):
                     if last_added_i is not None and last_added_i != i - 1:
                         # Last added row was not the previous row in the
                         # scaffold
-                        prev_row = scffld.rows[i - 1]
-                        if last_added_i == i - 2 and isinstance(prev_row, Gap):
-                            # Only this gap separated the two in the input
-                            new_scffld.add_row(prev_row)
+                        skipped = scffld.rows[last_added_i + 1 : i]
+                        if all(isinstance(row, Gap) for row in skipped):
+                            # Only gaps separated the two in the input
+                            for gap in skipped:
+                                new_scffld.add_row(gap)
                         else:
                             new_scffld.add_row(self.default_gap)
                     new_scffld.add_row(frag)
